@@ -16,36 +16,39 @@ def wire (ty : Nat) (value : Bytes) : Bytes :=
 theorem raw_toBytes (a : RawAttr) (h : a.value.length < 65536) :
     a.toBytes = wire a.ty a.value ∧ a.toBytes.length = a.paddedLen ∧
     a.paddedLen = 4 + round4 a.value.length := by
-  sorry
+  refine ⟨toBytes_eq a, ?_, raw_paddedLen a h⟩
+  rw [toBytes_eq, wireForm_length, raw_paddedLen a h]
 
 /-- writing a raw attribute in place gives the same bytes, whatever the destination held before,
     and touches nothing beyond the padded length -/
 theorem raw_write_eq (a : RawAttr) (dest : Bytes) (h : a.value.length < 65536)
     (hd : a.paddedLen ≤ dest.length) :
     a.writeInto dest = .ok (a.paddedLen, a.toBytes ++ dest.drop a.paddedLen) := by
-  sorry
+  exact raw_write a dest h hd
 
 /-- a destination that is too short: error with the required and available sizes (the model
     returns no new destination: nothing is written) -/
 theorem raw_write_short (a : RawAttr) (dest : Bytes) (hd : dest.length < a.paddedLen) :
     a.writeInto dest = .error (.tooSmall a.paddedLen dest.length) := by
-  sorry
+  exact StunVerif.raw_write_short a dest hd
 
 /-- the same for every in-limit value of every one of the 19 typed attributes: the in-place
     writer (header, value, zeroed padding where the type has any) equals `to_raw().to_bytes()` -/
 theorem typed_write_eq (v : AttrVal) (dest : Bytes) (hl : v.inLimit = true)
     (hd : v.paddedLen ≤ dest.length) :
     v.writeInto dest = .ok (v.paddedLen, v.toRaw.toBytes ++ dest.drop v.paddedLen) := by
-  sorry
+  exact typed_write v dest hl hd
 
 theorem typed_write_short (v : AttrVal) (dest : Bytes) (hd : dest.length < v.paddedLen) :
     v.writeInto dest = .error (.tooSmall v.paddedLen dest.length) := by
-  sorry
+  exact StunVerif.typed_write_short v dest hd
 
 theorem typed_toBytes (v : AttrVal) (hl : v.inLimit = true) :
     v.toRaw.toBytes = wire v.kind.code v.valueBytes ∧ v.toRaw.toBytes.length = v.paddedLen ∧
     v.toRaw.paddedLen = v.paddedLen := by
-  sorry
+  refine ⟨toBytes_eq v.toRaw, ?_, typed_raw_paddedLen v hl⟩
+  rw [toBytes_eq, wireForm_length, typed_paddedLen]
+  rfl
 
 /-- builders whose attributes are in-limit (typed) or at most 65535 bytes (raw) -/
 def BAttrOk : BAttr → Prop
@@ -63,25 +66,39 @@ def header (b : Builder) : Bytes :=
 theorem build_eq (b : Builder) (hb : BuilderOk b) :
     b.build = header b ++ b.attrs.flatMap (fun a => a.asRaw.toBytes) ∧
     b.build.length = b.byteLen := by
-  sorry
+  have hb' : ∀ a ∈ b.attrs, a.Ok := fun a ha => by
+    have := hb a ha
+    cases a <;> exact this
+  exact ⟨builder_build b hb', builder_build_length b hb'⟩
 
 /-- `write_into` an exact or larger buffer gives the same bytes as `build()` and touches nothing
     beyond the reported length, whatever the buffer held before -/
 theorem write_into_eq (b : Builder) (dest : Bytes) (hb : BuilderOk b)
     (hd : b.byteLen ≤ dest.length) :
     b.writeInto dest = .ok (b.byteLen, b.build ++ dest.drop b.byteLen) := by
-  sorry
+  have hb' : ∀ a ∈ b.attrs, a.Ok := fun a ha => by
+    have := hb a ha
+    cases a <;> exact this
+  rw [builder_writeInto b hb' dest hd, builder_build b hb']
 
 /-- a shorter buffer fails with the required and available sizes (and nothing is written: the
     guard precedes every write) -/
 theorem write_into_short (b : Builder) (dest : Bytes) (hd : dest.length < b.byteLen) :
     b.writeInto dest = .error (.tooSmall b.byteLen dest.length) := by
-  sorry
+  unfold Builder.writeInto
+  simp only []
+  rw [if_pos (by omega)]
 
 /-- `into_owned()` (typed attributes replaced by their raw form) serialises identically -/
 theorem owned_same (b : Builder) (hb : BuilderOk b) :
     b.intoOwned.build = b.build ∧ b.intoOwned.byteLen = b.byteLen := by
-  sorry
+  have hb' : ∀ a ∈ b.attrs, a.Ok := fun a ha => by
+    have := hb a ha
+    cases a <;> exact this
+  obtain ⟨h1, h2, h3⟩ := builder_owned b hb'
+  refine ⟨?_, h2⟩
+  rw [builder_build _ h1, builder_build b hb', h2, h3]
+  rfl
 
 /-! Non-vacuity -/
 example : BuilderOk ⟨1, 5, [.typed (.username [0x61]), .raw ⟨0x8022, [1, 2, 3, 4, 5]⟩], [6, 0x8022]⟩ := by
